@@ -91,14 +91,27 @@ impl FunctionExpression for ModFn {
             _ => false,
         };
 
+        // With an integer modulus the result is an integer only for an integer dividend: a float
+        // dividend gives a float result.
+        let value_type_def = self.value.type_def(state);
+        let integer_modulus_type_def = || {
+            if value_type_def.is_integer() {
+                TypeDef::integer()
+            } else if value_type_def.is_float() {
+                TypeDef::float()
+            } else {
+                TypeDef::float().or_integer()
+            }
+        };
+
         // Preserve the existing infallible typing for a known-safe modulus, unless the
         // dividend is a constant infinity that is known to produce NaN.
         let type_def = match self.modulus.resolve_constant(state) {
             Some(value) if value.is_float() || value.is_integer() => match value {
                 Value::Float(v) if v.is_normal() => TypeDef::float().infallible(),
                 Value::Float(_) => TypeDef::float().fallible(),
-                Value::Integer(v) if v != 0 => TypeDef::integer().infallible(),
-                Value::Integer(_) => TypeDef::integer().fallible(),
+                Value::Integer(v) if v != 0 => integer_modulus_type_def().infallible(),
+                Value::Integer(_) => integer_modulus_type_def().fallible(),
                 _ => TypeDef::float().or_integer().fallible(),
             },
             _ => TypeDef::float().or_integer().fallible(),
